@@ -622,8 +622,11 @@ fn minimise_and_write(runner: &Runner, sc: &'static dyn Scenario, sig: &str, cas
     };
     let from = size_of(&start);
     let (min, tries) = minimise(runner, sig, &start, 400);
-    // 2. the minimised file must fail the same way twice, with identical event logs
-    let a = runner.run_case(&min);
+    // 2. the minimised file must fail the same way twice, with identical event logs (the first of
+    // the two runs records the seam log, which is not part of the hash, for the replay file)
+    let mut traced = min.clone();
+    traced["sim"]["log_seam"] = json!(true);
+    let a = runner.run_case(&traced);
     let b = runner.run_case(&min);
     if !(a.has_sig(sig) && b.has_sig(sig)) {
         return Err("minimised case does not reproduce".into());
